@@ -29,6 +29,13 @@ THEOREMS = [
     # System.model with a selection of the properties (any subset / order / units after atype, pos): writing a
     # selection = writing the System that holds just the selected properties; round trip tree and XML; admissibility
     'C10.systemModel_select', 'C10.system_model_select', 'C10.system_model_select_xml', 'C10.select_wf',
+    # the call forms of the unit arguments (prop_unit dictionary / prop_name + unit lists / the unit list alone,
+    # aligned with the object's own property order / prop_name alone / nothing): what each resolves to, that the
+    # forms describing the same properties and units write the same tree, the round trip through the bare unit list,
+    # the documented refusals (prop_unit with prop_name / unit; lists of different lengths)
+    'C10.resolveCall_lists', 'C10.resolveCall_unit_alone', 'C10.resolveCall_names_alone', 'C10.resolveCall_default',
+    'C10.resolveCall_refuses', 'C10.resolveCall_refuses_length',
+    'C10.atoms_model_call_forms', 'C10.system_model_call_forms', 'C10.system_model_unit_list_roundtrip',
     # ElasticConstants
     'C10.elastic_model_roundtrip', 'C10.elastic_model_roundtrip_exact', 'C10.elastic_model_roundtrip_xml',
     'C10.elastic_model_two', 'C10.elastic_setter_roundtrip',
@@ -1884,6 +1891,31 @@ def _obj_line(case, r):
     return ' '.join(toks)
 
 
+def _args_tokens(case, r):
+    """the arguments of the model call in the form they were given (the driver resolves them with `resolveCall`):
+    pn := - | <k> <name>*;  un := - | <k> unit*;  pu := - | <k> {<name> unit}*."""
+    kw = _prop_kw(case)
+    chosen = case['sel'] if case.get('sel') is not None else case['props']
+    own = [p['name'] for p in chosen]
+    pn = kw.get('prop_name')
+    un = kw.get('unit')
+    pu = kw.get('prop_unit')
+    toks = ['args']
+    toks.append('-' if pn is None else f"{len(pn)} " + ' '.join(wire(n) for n in pn))
+    toks.append('-' if un is None else f"{len(un)} " + ' '.join(_u(u, r.fW, r.fR, n) for n, u in zip(pn or own, un)))
+    toks.append('-' if pu is None else f"{len(pu)} " + ' '.join(f"{wire(n)} {_u(u, r.fW, r.fR, n)}" for n, u in pu.items()))
+    return ' ' + ' '.join(toks).replace('  ', ' ')
+
+
+def _sel_tokens(case, r):
+    if 'call' in case:
+        return _args_tokens(case, r)
+    if case.get('sel') is not None:
+        return f" sel {len(case['sel'])} " + ' '.join(f"{wire(e['name'])} {_u(e['unit'], r.fW, r.fR, e['name'])}"
+                                                      for e in case['sel'])
+    return ''
+
+
 def request_line(case, r: RealRun) -> str:
     k, via = case['kind'], case['via']
     if k == 'obj':
@@ -1895,10 +1927,7 @@ def request_line(case, r: RealRun) -> str:
     props = ' '.join(f"{wire(p['name'])} {_u(p['unit'], r.fW, r.fR, p['name'])} {_arr_tokens(p)}"
                      for p in case.get('props', []))
     if k == 'atoms':
-        line = f"atoms {via} {case['natoms']} {len(case['props'])} {props}"
-        if case.get('sel') is not None:
-            line += f" sel {len(case['sel'])} " + ' '.join(f"{wire(e['name'])} {_u(e['unit'], r.fW, r.fR, e['name'])}"
-                                                           for e in case['sel'])
+        line = f"atoms {via} {case['natoms']} {len(case['props'])} {props}".rstrip() + _sel_tokens(case, r)
         return line.strip()
     if k == 'sys':
         symbols, ms = r.extra['symbols'], r.extra['masses']      # the System's state (padded with None)
@@ -1907,10 +1936,7 @@ def request_line(case, r: RealRun) -> str:
         pbc = ' '.join('1' if b else '0' for b in case['pbc'])
         line = (f"sys {via} {_u(case['box_unit'], r.fW, r.fR)} {_box_tokens(case['box'], r.extra.get('cell'))} {pbc} "
                 f"{len(symbols)} {syms} {len(ms)} {masses} {case['natoms']} "
-                f"{len(case['props'])} {props}").replace('  ', ' ')
-        if case.get('sel') is not None:
-            line += f" sel {len(case['sel'])} " + ' '.join(f"{wire(e['name'])} {_u(e['unit'], r.fW, r.fR, e['name'])}"
-                                                           for e in case['sel'])
+                f"{len(case['props'])} {props}").replace('  ', ' ').rstrip() + _sel_tokens(case, r)
         return line.strip()
     if k == 'ec':
         mk = r.extra.get('muK')
